@@ -13,6 +13,7 @@
 //                     is seen twice.  During a burst (BU) its Export is held back until the last Emit returned, so that the
 //                     queue holds the whole burst when the worker's export cycles run; then ForceFlush / provider Shutdown.
 // Attribute keys and event names live in exact-size heap blocks that are FREED right after the call (ASan).
+#include "opentelemetry/sdk/common/global_log_handler.h"
 #include <algorithm>
 #include <chrono>
 #include <condition_variable>
@@ -1233,6 +1234,8 @@ private:
 
 int main(int argc, char **argv)
 {
+  // the SDK's internal log goes to stdout by default and would corrupt the one-line-per-case protocol
+  opentelemetry::sdk::common::internal_log::GlobalLogHandler::SetLogLevel(opentelemetry::sdk::common::internal_log::LogLevel::None);
   register_sigs();
   return verif::run_cases(argc, argv, [](const Toks &t, Out &o) {
     if (t.empty()) { o.tag("BADCASE"); return; }
